@@ -651,4 +651,17 @@ def r10k(ctx):
             ctx.ok(cid, c.module.loc(p.stmt), "the single-partition broadcast is answered before the merged divisions")
         else:
             ctx.bad(cid, c.module.loc(p.stmt), f"`{unparse(p.stmt)}` answers with the merged divisions of both sides although Merge._lower takes the single-partition broadcast first (BlockwiseMerge keeps the partitions of the larger side): the logical node reports partitions that are never computed - tail(), partitions[-1], head(npartitions=-1) index past the end")
+    # (b) on the single-partition-broadcast path the lowering is a BlockwiseMerge over the partitions of the larger side; the user's
+    # npartitions hint is not applied there, so the logical node must not advertise it
+    for st in flow.walk(fn):
+        if not isinstance(st.stmt, ast.Assign):
+            continue
+        if not any(pol and "_is_single_partition_broadcast" in ast.unparse(t) for t, pol in flow.facts(st)):
+            continue
+        n += 1
+        cid = f"_merge.Merge._divisions:single-partition-count:{ast.unparse(st.stmt.targets[0])}"
+        if "self._npartitions" in ast.unparse(st.stmt.value) or "operand('_npartitions')" in ast.unparse(st.stmt.value):
+            ctx.bad(cid, c.module.loc(st.stmt), f"`{unparse(st.stmt)}` advertises the user's npartitions hint on the single-partition-broadcast path, where Merge._lower returns a BlockwiseMerge with the partitions of the larger input and never applies the hint: npartitions / divisions of the logical node disagree with the graph (partitions[k], tail() index past the end)")
+        else:
+            ctx.ok(cid, c.module.loc(st.stmt), "the partition count of the blockwise merge is that of the larger input")
     ctx.floor("merged-division returns of Merge._divisions", n, 1)
